@@ -41,7 +41,9 @@ def parseParts (s : String) : Option (List Part) :=
   if s == "_" then some []
   else (s.splitOn ";").mapM parsePart
 
-def parseKB (s : String) : Option (Option KB) :=
+def slotKB (kbs : List (Nat × KB)) (n : Nat) : Option KB := (kbs.find? (fun p => p.1 == n)).map (·.2)
+
+def parseKB (kbs : List (Nat × KB)) (s : String) : Option (Option KB) :=
   match s.splitOn "/" with
   | [] => none
   | t :: groups =>
@@ -49,6 +51,15 @@ def parseKB (s : String) : Option (Option KB) :=
     | none => none
     | some gs =>
       let gsb := gs.map (fun g => g.map toBytes)
+      if t.startsWith "@" then
+        -- a builder kept in a slot, followed by Append groups
+        match (t.drop 1).toNat? with
+        | none => none
+        | some n =>
+          match slotKB kbs n with
+          | none => none
+          | some kb => some (some (gsb.foldl (fun kb g => kb.append g) kb))
+      else
       let base : Option (Option KB) :=
         match gsb with
         | [] => none
@@ -78,13 +89,13 @@ def dumpStore (s : Store) : String :=
   if es.isEmpty then "empty" else ",".intercalate es
 
 /-- run `f` on a parsed key builder; a `ToKey` panic prints `panic` -/
-def withKB (s : Store) (spec : String) (f : KB → Store × String) : Store × String :=
-  match parseKB spec with
+def withKB (kbs : List (Nat × KB)) (s : Store) (spec : String) (f : KB → Store × String) : Store × String :=
+  match parseKB kbs spec with
   | none => (s, "bad-op")
   | some none => (s, "panic")
   | some (some kb) => f kb
 
-def step (s : Store) (toks : List String) : Store × String :=
+def stepCore (kbs : List (Nat × KB)) (s : Store) (toks : List String) : Store × String :=
   match toks with
   | ["reset"] => ([], "ok")
   | ["tobytes", p] => match parsePart p with
@@ -101,52 +112,125 @@ def step (s : Store) (toks : List String) : Store × String :=
       | some ps => (s, "ok " ++ (if ps.isEmpty then "_" else ";".intercalate (ps.map Hex.encodeWire)))
       | none => (s, "err")
     | none => (s, "bad-op")
-  | ["build", kb] => withKB s kb (fun kb => (s, Hex.encodeWire (kb.build H)))
-  | ["vget", kb] => withKB s kb (fun kb => (s, showV (varGet H s kb)))
+  | ["build", kb] => withKB kbs s kb (fun kb => (s, Hex.encodeWire (kb.build H)))
+  | ["vget", kb] => withKB kbs s kb (fun kb => (s, showV (varGet H s kb)))
   | ["vset", kb, p] => match parsePart p with
-    | some p => withKB s kb (fun kb => (varSet H s kb (toBytes p), "ok"))
+    | some p => withKB kbs s kb (fun kb => (varSet H s kb (toBytes p), "ok"))
     | none => (s, "bad-op")
-  | ["vdel", kb] => withKB s kb (fun kb => let r := varDel H s kb; (r.1, showV r.2))
-  | ["asize", kb] => withKB s kb (fun kb => match arrSize H s kb with
+  | ["vdel", kb] => withKB kbs s kb (fun kb => let r := varDel H s kb; (r.1, showV r.2))
+  | ["asize", kb] => withKB kbs s kb (fun kb => match arrSize H s kb with
     | some n => (s, s!"{n}")
     | none => (s, "panic"))
   | ["aget", kb, i] => match i.toInt? with
-    | some i => if inI64 i then withKB s kb (fun kb => (s, showV (arrGet H s kb i))) else (s, "bad-op")
+    | some i => if inI64 i then withKB kbs s kb (fun kb => (s, showV (arrGet H s kb i))) else (s, "bad-op")
     | none => (s, "bad-op")
   | ["aset", kb, i, p] => match i.toInt?, parsePart p with
     | some i, some p =>
-      if inI64 i then withKB s kb (fun kb => match arrSet H s kb i (toBytes p) with
+      if inI64 i then withKB kbs s kb (fun kb => match arrSet H s kb i (toBytes p) with
         | some (s', ok) => (s', if ok then "ok" else "err")
         | none => (s, "panic"))
       else (s, "bad-op")
     | _, _ => (s, "bad-op")
   | ["aput", kb, p] => match parsePart p with
-    | some p => withKB s kb (fun kb => match arrPut H s kb (toBytes p) with
+    | some p => withKB kbs s kb (fun kb => match arrPut H s kb (toBytes p) with
       | some s' => (s', "ok")
       | none => (s, "panic"))
     | none => (s, "bad-op")
-  | ["apop", kb] => withKB s kb (fun kb => match arrPop H s kb with
+  | ["apop", kb] => withKB kbs s kb (fun kb => match arrPop H s kb with
     | some (s', none) => (s', "none")
     | some (s', some ov) => (s', showV ov)
     | none => (s, "panic"))
   | ["dget", kb, d, ks] => match d.toInt?, parseParts ks with
-    | some d, some ks => withKB s kb (fun kb => (s, showV (dictGet H s ⟨kb, d⟩ (ks.map toBytes))))
+    | some d, some ks => withKB kbs s kb (fun kb => (s, showV (dictGet H s ⟨kb, d⟩ (ks.map toBytes))))
     | _, _ => (s, "bad-op")
   | ["dset", kb, d, ks, p] => match d.toInt?, parseParts ks, parsePart p with
-    | some d, some ks, some p => withKB s kb (fun kb =>
+    | some d, some ks, some p => withKB kbs s kb (fun kb =>
         let r := dictSet H s ⟨kb, d⟩ (ks.map toBytes) (toBytes p); (r.1, if r.2 then "ok" else "err"))
     | _, _, _ => (s, "bad-op")
   | ["ddel", kb, d, ks] => match d.toInt?, parseParts ks with
-    | some d, some ks => withKB s kb (fun kb =>
+    | some d, some ks => withKB kbs s kb (fun kb =>
         let r := dictDel H s ⟨kb, d⟩ (ks.map toBytes); (r.1, if r.2 then "ok" else "err"))
     | _, _ => (s, "bad-op")
   | ["dsub", kb, d, ks1, ks2] => match d.toInt?, parseParts ks1, parseParts ks2 with
-    | some d, some ks1, some ks2 => withKB s kb (fun kb =>
+    | some d, some ks1, some ks2 => withKB kbs s kb (fun kb =>
         match dictGetDB ⟨kb, d⟩ (ks1.map toBytes) with
         | none => (s, "nodb")
         | some d2 => (s, showV (dictGet H s d2 (ks2.map toBytes))))
     | _, _, _ => (s, "bad-op")
   | ["dump"] => (s, dumpStore s)
   | _ => (s, "bad-op")
+structure St where
+  store : Store
+  kbs : List (Nat × KB)
+  /-- kept `*DictDB` objects; `none` = a nil result of `GetDB` -/
+  dicts : List (Nat × Option Dict)
+
+def init : St := { store := [], kbs := [], dicts := [] }
+
+def slotDict (ds : List (Nat × Option Dict)) (n : Nat) : Option (Option Dict) :=
+  (ds.find? (fun p => p.1 == n)).map (·.2)
+
+def step (st : St) (toks : List String) : St × String :=
+  match toks with
+  | ["reset"] => (init, "ok")
+  | ["kbnew", n, spec] =>
+    match n.toNat? with
+    | none => (st, "bad-op")
+    | some n =>
+      match parseKB st.kbs spec with
+      | none => (st, "bad-op")
+      | some none => (st, "panic")
+      | some (some kb) =>
+        ({ st with kbs := (n, kb) :: st.kbs.filter (fun p => p.1 != n) }, Hex.encodeWire (kb.build H))
+  | ["dnew", n, spec, d] =>
+    match n.toNat?, d.toInt? with
+    | some n, some d =>
+      match parseKB st.kbs spec with
+      | none => (st, "bad-op")
+      | some none => (st, "panic")
+      | some (some kb) =>
+        ({ st with dicts := (n, some ⟨kb, d⟩) :: st.dicts.filter (fun p => p.1 != n) }, "ok")
+    | _, _ => (st, "bad-op")
+  | ["dgetdb", n2, n, ks] =>
+    match n2.toNat?, n.toNat?, parseParts ks with
+    | some n2, some n, some ks =>
+      match slotDict st.dicts n with
+      | none => (st, "bad-op")
+      | some none => (st, "nodb")
+      | some (some d) =>
+        let r := dictGetDB d (ks.map toBytes)
+        ({ st with dicts := (n2, r) :: st.dicts.filter (fun p => p.1 != n2) }, if r.isSome then "ok" else "nodb")
+    | _, _, _ => (st, "bad-op")
+  | ["sdget", n, ks] =>
+    match n.toNat?, parseParts ks with
+    | some n, some ks =>
+      match slotDict st.dicts n with
+      | none => (st, "bad-op")
+      | some none => (st, "nodb")
+      | some (some d) => (st, showV (dictGet H st.store d (ks.map toBytes)))
+    | _, _ => (st, "bad-op")
+  | ["sdset", n, ks, p] =>
+    match n.toNat?, parseParts ks, parsePart p with
+    | some n, some ks, some p =>
+      match slotDict st.dicts n with
+      | none => (st, "bad-op")
+      | some none => (st, "nodb")
+      | some (some d) =>
+        let r := dictSet H st.store d (ks.map toBytes) (toBytes p)
+        ({ st with store := r.1 }, if r.2 then "ok" else "err")
+    | _, _, _ => (st, "bad-op")
+  | ["sddel", n, ks] =>
+    match n.toNat?, parseParts ks with
+    | some n, some ks =>
+      match slotDict st.dicts n with
+      | none => (st, "bad-op")
+      | some none => (st, "nodb")
+      | some (some d) =>
+        let r := dictDel H st.store d (ks.map toBytes)
+        ({ st with store := r.1 }, if r.2 then "ok" else "err")
+    | _, _ => (st, "bad-op")
+  | _ =>
+    let r := stepCore st.kbs st.store toks
+    ({ st with store := r.1 }, r.2)
 end Goloop.Driver.C21
-def main : IO Unit := Goloop.Proto.run Goloop.Driver.C21.step ([] : Goloop.C21.Store)
+def main : IO Unit := Goloop.Proto.run Goloop.Driver.C21.step Goloop.Driver.C21.init
